@@ -27,13 +27,16 @@ def coverage_table():
 
 
 def seeded_table():
-    rows = ["| change | written for | what it needs to manifest (from the author's notes) | reported by (quick tier) |", "|---|---|---|---|"]
+    rows = ["| change | written for | what the change is and what it needs to manifest | target check reports it | all checks that report it (full matrix, when run) |", "|---|---|---|---|---|"]
     for d in sorted(glob.glob(os.path.join(HERE, "seeded", "C*-*"))):
         m = json.load(open(os.path.join(d, "meta.json")))
         det = m.get("detected_by") or {}
-        q = det.get("quick") if isinstance(det, dict) else None
+        det = det if isinstance(det, dict) else {}
+        q = det.get("quick")
+        t = det.get("quick-target")
         need = (m.get("summary") or "").replace("|", "/")
-        rows.append("| %s | %s | %s | %s |" % (os.path.basename(d), m["property"], need[:300], " ".join(q) if q else ("NOT DETECTED" if q == [] else "(matrix not run yet)")))
+        tcol = ("yes" if t else ("NO" if t == [] else ("yes" if (q and m["property"] in q) else "(not run)")))
+        rows.append("| %s | %s | %s | %s | %s |" % (os.path.basename(d), m["property"], need[:330], tcol, " ".join(q) if q else ("none" if q == [] else "(not run)")))
     return "\n".join(rows)
 
 
